@@ -492,7 +492,7 @@ theorem haversine_le_half_circumference' (hR : 0 ≤ F.R) (hsqrt : ∀ x, 0 ≤ 
     (hatan : ∀ y x, 0 ≤ y → 0 ≤ x → F.atan2 y x ≤ F.pi / 2) (p q : Pt α) :
     distanceHaversine F p q ≤ F.pi * F.R := by
   unfold distanceHaversine
-  have h := hatan (F.sqrt (havA F p q)) (F.sqrt (1 - havA F p q)) (hsqrt _) (hsqrt _)
+  have h := hatan (F.sqrt (F.min (havA F p q) 1)) (F.sqrt (1 - F.min (havA F p q) 1)) (hsqrt _) (hsqrt _)
   have h2 := mul_le_mul_of_nonneg_left h hR
   simp only
   linarith
@@ -501,10 +501,13 @@ theorem haversine_nonneg' (hR : 0 ≤ F.R) (hsqrt : ∀ x, 0 ≤ F.sqrt x)
     (hatan : ∀ y x, 0 ≤ y → 0 ≤ x → 0 ≤ F.atan2 y x) (p q : Pt α) :
     0 ≤ distanceHaversine F p q := by
   unfold distanceHaversine
-  have h := hatan (F.sqrt (havA F p q)) (F.sqrt (1 - havA F p q)) (hsqrt _) (hsqrt _)
+  have h := hatan (F.sqrt (F.min (havA F p q) 1)) (F.sqrt (1 - F.min (havA F p q) 1)) (hsqrt _) (hsqrt _)
   have h2 := mul_nonneg hR h
   simp only
   linarith
+
+theorem haversine_sqrt_arg_nonneg' (hmin : ∀ a b, F.min a b ≤ b) (p q : Pt α) :
+    0 ≤ 1 - F.min (havA F p q) 1 := sub_nonneg.mpr (hmin _ _)
 
 theorem distance_fold_le_pi' (x : α) (h2 : F.abs x ≤ 2 * F.pi) (hpi : 0 ≤ F.pi) :
     (if F.pi < F.abs x then 2 * F.pi - F.abs x else F.abs x) ≤ F.pi ∧
